@@ -12,7 +12,6 @@ Variable H : bytes -> bytes.
 Variable sign : N -> bytes -> option bytes.
 Variable guard : val -> val -> bool.
 Variable cfg : config.
-Hypothesis H_len : forall b, length (H b) = 32%nat.
 
 (* the RFC-level entry the server derives (the content of leaf_from_chain) *)
 Definition server_entry (s : submission) : res entry :=
